@@ -2,6 +2,8 @@
 C16 — enum constants are a bijection with the schema's enum values.
 -/
 import Genq.Model.Names
+import Genq.Model.ConvSkel
+import Genq.Extracted.Conv
 namespace Genq.Names
 
 section Lemmas
@@ -298,3 +300,13 @@ example : convertEnum ⟨none, none, []⟩ "R".toList "R".toList ["a_b".toList, 
     .conflict "A_B".toList "a_b".toList "RAB".toList := by decide
 
 end Genq.Names
+
+namespace Genq
+
+/-- **C16_enum_naming_tie** — Casing.enumValueName (with the naming functions it shares a file with), as in /repo now (regenerated on every run), equal to the copy the model was written from -/
+theorem C16_enum_naming_tie : Extracted.namingSkeleton = ConvSkel.namingSkeleton := rfl
+
+/-- **C16_casing_tie** — Casing.validate / Casing.forEnum, as in /repo now (regenerated on every run), equal to the copy the model was written from -/
+theorem C16_casing_tie : Extracted.casingSkeleton = ConvSkel.casingSkeleton := rfl
+
+end Genq
